@@ -91,7 +91,8 @@ def gen_uniform(rng):
         a, b = sorted([rng.uniform(-5, 5), rng.uniform(-5, 5)])
         return h(a), h(b)
     if r < 0.50:                 # a range of k units in the last place: the raw draw hits `lower` often
-        lo = rng.choice([h(1.0), h(-1.0), h(rng.uniform(-3, 3)), "00000000", NZERO, NDENORM, h(1e-38), h(3e38), "80000003"])
+        lo = rng.choice([h(1.0), h(-1.0), h(rng.uniform(-3, 3)), "00000000", NZERO, NDENORM, h(1e-38), h(3e38), "80000003",
+                         h(2.0), h(-2.0), h(1024.0), h(-4096.0), h(1e6), h(-37.5), h(rng.uniform(2, 5000)), h(-rng.uniform(2, 5000))])
         return lo, ulp_up(lo, rng.choice([1, 1, 2, 3, 5, 16]))
     if r < 0.62:                 # lower == upper
         v = rng.choice([h(0.0), NZERO, h(1.0), h(-2.5), FLTMAX, DENORM, h(rng.uniform(-9, 9))])
@@ -184,6 +185,40 @@ def gen_request(rng, big):
 
 def gen_stream(rng, backend, seed, n, big):
     return ["dev %s %d" % (backend, seed)] + [gen_request(rng, big) for _ in range(n)]
+
+
+ODD_SHAPES = ["S:1/1", "S:3/1", "S:5/1", "S:15/1", "S:3,5/1", "S:1/3", "S:7/1"]
+
+
+def leak_streams(rng, backend):
+    """State must not leak between calls or devices inside the fill_* helpers (e.g. a distribution object that outlives
+    the call and keeps the spare sample of normal_distribution): one device draws an odd number of normal / log_normal
+    samples, then a freshly seeded device of the same process is asked for normals; and odd request then another request
+    on the same device."""
+    out = []
+    for _ in range(2):
+        s = []
+        for _ in range(3):
+            s.append("dev %s %d" % (backend, rng.randrange(2 ** 32)))
+            for _ in range(rng.choice([1, 2])):
+                kind = rng.choice(["normal", "log_normal", "node_normal", "init xavier_normal", "pinit xavier_normal_conv2d"])
+                sh = rng.choice(ODD_SHAPES)
+                if kind.startswith("init") or kind.startswith("pinit"):
+                    s.append("%s 3f800000 %s" % (kind, rng.choice(["S:3,5/1", "S:3/1", "S:5,3/1", "S:1/1"])))
+                else:
+                    s.append("%s %s %s %s" % (kind, sh, rand_f(rng), h(rng.uniform(0.5, 2))))
+            s.append("normal %s 00000000 3f800000" % rng.choice(["S:4/1", "S:3/1", "S:2/1"]))
+        out.append(s)
+    return out
+
+
+def dropout_grid(backend, seed):
+    s = ["dev %s %d" % (backend, seed)]
+    for pre in ("", "node_"):
+        for rate in (h(0.0), h(0.5), h(1.0), NAN):
+            for en in (0, 1):
+                s.append("%sdropout S:3,5/2 %s %d" % (pre, rate, en))
+    return s
 
 
 def corpus_streams():
@@ -321,6 +356,9 @@ def same(v, e):
     return v == e or (v != v and e != e)
 
 
+STATS = {"fixup_fired": 0, "fixup_fired_abs_lower_ge_2": 0}
+
+
 def spec_values(kind, a, b, raws):
     """The values the contract prescribes for the standard draws `raws` of the device's stream (float arithmetic
     emulated through doubles: + - * of two floats rounded once more to float is exact). None = not determined here."""
@@ -333,6 +371,10 @@ def spec_values(kind, a, b, raws):
         out = []
         for u in raws:
             x = f32(f32(w * u) + a)
+            if a < b and x <= a:
+                STATS["fixup_fired"] += 1
+                if abs(a) >= 2:
+                    STATS["fixup_fired_abs_lower_ge_2"] += 1
             out.append(b if (a < b and x <= a) else x)          # (lower, upper]: a draw equal to lower becomes upper
         return out
     if kind == "normal":
@@ -592,7 +634,7 @@ def run(chk):
     # 2. histories
     rng = chk.rng
     n_seeds, per = (10, 30) if quick else (50, 100)
-    seeds = [0, 1, 2 ** 32 - 1]
+    seeds = [0, 1, 0x7fffffff, 0x80000000, 0xffffffff]        # boundary seeds first, on both backends
     while len(seeds) < n_seeds:
         x = rng.randrange(2 ** 32)
         if x not in seeds:
@@ -603,6 +645,9 @@ def run(chk):
         streams.append(base)
         # the same history on the other backend: both CPU backends must agree with the same model
         streams.append(["dev eigen %d" % sd] + base[1:])
+    for be in ("naive", "eigen"):
+        streams += leak_streams(rng, be)
+        streams.append(dropout_grid(be, rng.randrange(2 ** 32)))
     streams.append(["bernoulli S:2/1 3f000000", "dev naive 7", "bernoulli S:2/1 3f000000", "dev eigen 7", "bernoulli S:2/1 3f000000"])
     with_raws, first_out = [], {}
     for s in streams:
@@ -691,6 +736,9 @@ def run(chk):
         chk.extra_cov["moment_sanity_context_only"] = moments(exe)
     except Exception as e:
         chk.notes.append("moment run failed: %r" % (e,))
+    chk.extra_cov["fixup_fired"] = dict(STATS)
+    if STATS["fixup_fired_abs_lower_ge_2"] == 0:
+        chk.notes.append("no raw draw hit `lower` on a range with |lower| >= 2 in this run")
     chk.extra_cov["histories"] = len(with_raws)
     chk.extra_cov["seeds"] = len(seeds)
     chk.trusted += [
